@@ -42,7 +42,7 @@ Storage == /\ Is("Storage") /\ l' = l + 1 /\ Ev.mapAliases /\ Ev.cmapAliases /\ 
 \* remove_if over parallel tensors: the kept rows in order
 RemoveIf == /\ Is("RemoveIf") /\ l' = l + 1
             /\ LET kept == SelectSeq(Range(0, Len(Ev.flags)), LAMBDA i : Ev.flags[i + 1] = 0) IN
-               Ev.size = Len(kept) /\ Ev.rows = kept /\ Ev.rows2 = kept
+               Ev.size = Len(kept) /\ Ev.rows = kept /\ Ev.rows2 = kept /\ Ev.rows3 = kept /\ Ev.rows4 = kept   \* whole sub-tensors, any rank
 \* stack(rows, cols, blocks...): vertical concatenation
 Stack == /\ Is("Stack") /\ l' = l + 1 /\ Ev.ok
 Next == Offsets \/ SubView \/ SliceView \/ ReshapeView \/ Gather \/ Integral \/ Storage \/ RemoveIf \/ Stack
